@@ -201,7 +201,7 @@ def pickConfig (rng : Rng) : Rng × Nat × Nat :=
   let (rng, cap) :=
     if k < 4 then let (r, c) := rng.below 10; (r, c + 2)
     else if k < 8 then let (r, c) := rng.below 24; (r, c + 8)
-    else rng.pick [40, 64, 256]
+    else rng.pick [40, 64, 71, 100, 130, 200, 256]   -- also capacities that are not a multiple of 64 / a power of two
   (rng, n, cap)
 
 def genRandomHistory (rng : Rng) (p : Prof) (len : Nat) : Rng × Array String :=
@@ -446,7 +446,7 @@ def genFork (rng : Rng) (len : Nat) : Rng × Array String :=
 
 def genSer (rng : Rng) (len : Nat) (cutStep : Nat) : Rng × Array String :=
   let (rng, n) := rng.pick [1, 2, 4, 16]
-  let (rng, cap) := rng.pick [3, 5, 8, 12, 20, 33, 64]
+  let (rng, cap) := rng.pick [3, 5, 8, 12, 20, 33, 64, 70, 100]
   -- one history in six starts with 13 or 14 groups alive (every group slot in use at save time)
   let (rng, mg) := rng.below 6
   let (rng, groups) := rng.pick [13, 14, 14]
@@ -477,11 +477,15 @@ def genSlice (rng : Rng) (len : Nat) : Rng × Array String :=
   let (rng, k) := rng.below 13
   let k := k + 2
   let (rng, extra) := rng.below 6
-  let cap := k + extra
+  -- one history in four lives at the top of a large, sparse capacity (ids of 57 and more, capacities that are neither
+  -- small nor a multiple of 64)
+  let (rng, hr) := rng.pick [0, 0, 0, 0, 0, 0, 57, 64, 70, 100, 150, 230]
+  let span := k + extra
+  let cap := span + hr
   let s := GenSt.start rng n cap
   -- ids: a random subset of size k
-  let (rng, ids) := (List.range cap).foldl (fun (acc : Rng × List Nat) v =>
-    let (r, c) := acc.1.below cap
+  let (rng, ids) := ((List.range span).map (· + hr)).foldl (fun (acc : Rng × List Nat) v =>
+    let (r, c) := acc.1.below span
     if c < k + 2 ∧ acc.2.length < k then (r, v :: acc.2) else (r, acc.2)) (s.rng, [])
   let s := { s with rng := rng }
   let s := ids.foldl (fun (s : GenSt) v => match s.tryOps [.add v] with | some x => x | none => s) s
@@ -547,10 +551,10 @@ def treeOps (t : List TNode) : List Op :=
   t.filterMap (fun n => n.parent.map (fun (p, l) => Op.bind p n.id l)) ++
   t.filterMap (fun n => n.data.map (fun d => Op.put n.id d))
 
-def pickIds (rng : Rng) (cap k : Nat) : Rng × List Nat :=
-  -- k distinct ids below cap, in random order
+def pickIds (rng : Rng) (cap k : Nat) (off : Nat := 0) : Rng × List Nat :=
+  -- k distinct ids below cap (at or above `off`), in random order
   (List.range k).foldl (fun (acc : Rng × List Nat) _ =>
-    let free := (List.range cap).filter (· ∉ acc.2)
+    let free := ((List.range (cap - off)).map (· + off)).filter (· ∉ acc.2)
     if free.isEmpty then acc else
       let (r, v) := acc.1.pick free
       (r, acc.2 ++ [v])) (rng, [])
@@ -574,8 +578,16 @@ def genMerge (rng : Rng) (broken : Bool) : Rng × Array String :=
   let (rng, many) := rng.below 8
   let many := 14 + many
   let capR := kr + 1 + extraR + 3 + (if broken ∧ mode = 4 then many else 0)
-  let (rng, idsL) := pickIds rng capL (kl + 1)
-  let (rng, idsR) := pickIds rng capR (kr + 1)
+  -- one merge in four (never a tight one) has its two trees at the top of large, sparse capacities
+  let (rng, hrL) := rng.pick [0, 0, 0, 0, 0, 0, 60, 64, 90, 200]
+  let (rng, hrR) := rng.pick [0, 57, 64, 100, 180]
+  let hrL := if tight = 0 then 0 else hrL
+  let hrR := if hrL = 0 then 0 else hrR
+  let capBig := capBig + hrL
+  let capL := capL + hrL
+  let capR := capR + hrR
+  let (rng, idsL) := pickIds rng capL (kl + 1) hrL
+  let (rng, idsR) := pickIds rng capR (kr + 1) hrR
   -- the left tree often holds few data (so that one vertex holds the last unread datum of its group); now and then
   -- a right vertex carries the very bytes a left vertex holds
   let (rng, densL) := rng.pick [2, 2, 4, 7]
@@ -655,7 +667,7 @@ def profRender : Prof := { wBind := 30, wAdd := 10, wPut := 10, wDataUnread := 8
 
 def genRender (rng : Rng) (len : Nat) : Rng × Array String :=
   let (rng, n) := rng.pick [2, 3, 4, 8, 16]
-  let (rng, cap) := rng.pick [3, 5, 8, 12, 20]
+  let (rng, cap) := rng.pick [3, 5, 8, 12, 20, 20, 70, 130]
   -- one history in six starts with 13 or 14 groups alive (every group slot in use)
   let (rng, mg) := rng.below 6
   let (rng, groups) := rng.pick [13, 14, 14]
@@ -706,6 +718,7 @@ def genProfile (profile : String) (seed : Nat) (count len : Nat) : Array String 
       | "slice" => genSlice rng len
       | "merge" => genMerge rng false
       | "mergebroken" => genMerge rng true
+      | "mergemix" => genMerge rng (i % 2 = 0)     -- failing merges and merges of trees alternate in one process
       | "ser" => genSer rng len 7
       | "serall" => genSer rng len 1
       | _ => (rng, #[])
